@@ -464,11 +464,37 @@ static char *hwv_support_xml(const char *desc, int *lenp)
   hwloc_free_xmlbuffer(t, xml); hwloc_topology_destroy(t);
   return out;
 }
+/* XML of a deep, narrow topology: pu:<g+2> with g nested Groups (PUs 0..g, 0..g-1, ..., 0..1, each a level of its own):
+   g + 2 normal levels with about 2g objects, to be loaded from the XML buffer (the levels are then connected at load) */
+static char *hwv_chain_xml(unsigned g, int *lenp)
+{
+  hwloc_topology_t t; char desc[32], *xml = NULL, *out; int len = 0; unsigned i;
+  if (hwloc_topology_init(&t) < 0) return NULL;
+  snprintf(desc, sizeof desc, "pu:%u", g + 2);
+  if (hwloc_topology_set_synthetic(t, desc) < 0 || hwloc_topology_load(t) < 0) { hwloc_topology_destroy(t); return NULL; }
+  for (i = g; i >= 1; i--) {
+    hwloc_obj_t grp = hwloc_topology_alloc_group_object(t); unsigned j;
+    if (!grp) break;
+    grp->cpuset = hwloc_bitmap_alloc();
+    for (j = 0; j <= i; j++) hwloc_bitmap_set(grp->cpuset, j);     /* PUs 0..i: nested, at least two PUs */
+    if (!hwloc_topology_insert_group_object(t, grp)) break;
+  }
+  if (hwloc_topology_export_xmlbuffer(t, &xml, &len, 0) < 0) { hwloc_topology_destroy(t); return NULL; }
+  out = malloc((size_t)len + 1); memcpy(out, xml, (size_t)len); out[len] = 0; *lenp = len;
+  hwloc_free_xmlbuffer(t, xml); hwloc_topology_destroy(t);
+  return out;
+}
+
 /* configuration line "src synthsupport <desc>": returns 1 if handled */
 static char *hwv_supxml;
 static int hwv_config_support_line(hwloc_topology_t t, const char *line)
 {
   int len = 0;
+  if (!strncmp(line, "src synthchain ", 15)) {
+    free(hwv_supxml); hwv_supxml = hwv_chain_xml((unsigned)atoi(line + 15), &len);
+    printf("config synthchain rc=%d\n", hwv_supxml ? hwloc_topology_set_xmlbuffer(t, hwv_supxml, len) : -1);
+    return 1;
+  }
   if (strncmp(line, "src synthsupport ", 17)) return 0;
   free(hwv_supxml); hwv_supxml = hwv_support_xml(line + 17, &len);
   unsetenv("HWLOC_THISSYSTEM");
